@@ -2647,6 +2647,10 @@ func (s *Server) serveConnCounted(c net.Conn, countConcurrency bool) error {
 		ctx.connRequestNum = connRequestNum
 		ctx.time = time.Now()
 
+		// What the handler does with a streamed body is observed from here on,
+		// whichever way it lets go of it (also Request.Reset).
+		ctx.Request.bodyStreamUnread = false
+
 		// If a client denies a request the handler should not be called
 		if continueReadingRequest {
 			s.Handler(ctx)
